@@ -314,7 +314,6 @@ def compile_logical_or_and_and_operator(compiler, expr, operator, args):
         if var is None:
             var = compiler.get_anon_var()
         name = asty.Name(node, id=var, ctx=ast.Store())
-        ret.temp_variables.append(name)
         can_append = False
         return (assignment := asty.Assign(node, targets=[name], value=value))
 
@@ -323,7 +322,6 @@ def compile_logical_or_and_and_operator(compiler, expr, operator, args):
         if var is None:
             stmts.append(put(node, ret.force_expr))
         name = asty.Name(node, id=var, ctx=ast.Load())
-        ret.temp_variables.append(name)
         return name
 
     for value in map(compiler.compile, args):
@@ -1322,7 +1320,6 @@ def compile_match_expression(compiler, expr, root, subject, clauses):
 
     returnable = Result(
         expr=asty.Name(expr, id=return_var.id, ctx=ast.Load()),
-        temp_variables=[return_var],
     )
     ret = Result() + subject
     ret += asty.Assign(
@@ -1552,7 +1549,9 @@ def compile_try_expression(compiler, expr, root, body, catchers, orelse, finalbo
 
     returnable = Result(
         expr=asty.Name(expr, id=return_var.id, ctx=ast.Load()),
-        temp_variables=[return_var],
+        # With `finally`, an enclosing assignment mustn't take over the
+        # return variable: its target would be set before `finally` runs.
+        temp_variables=[] if finalbody else [return_var],
     )
     body += (
         body.expr_as_stmt()
